@@ -9,7 +9,7 @@ import collections
 import importlib
 import re
 
-PROP_GROUPS = {'C16': ['concat'], 'C12': ['sortkey'], 'C04': ['driver'], 'C15': ['fields', 'delete_schema', 'select_schema', 'get_type'], 'C01': ['flow'], 'C07': ['flow', 'ejson', 'ejson_hook'], 'C11': ['join'], 'C02': ['join', 'get_type'], 'C10': ['matcher'], 'C14': ['handlers', 'vloop'], 'C17': ['rows'], 'C13': ['load']}
+PROP_GROUPS = {'C16': ['concat', 'duplicate'], 'C12': ['sortkey'], 'C04': ['driver'], 'C15': ['fields', 'delete_schema', 'select_schema', 'get_type'], 'C01': ['flow'], 'C07': ['flow', 'ejson', 'ejson_hook'], 'C11': ['join'], 'C02': ['join', 'get_type'], 'C10': ['matcher'], 'C14': ['handlers', 'vloop'], 'C17': ['rows'], 'C13': ['load']}
 
 
 # ---------------------------------------------------------------- encoding
@@ -102,6 +102,7 @@ def sort_list(c):
 
 # the order in which a Python set is enumerated is unspecified: `list(<set>)` is compared as a sorted list
 post_model = {'agg_set_finaliser': sort_list,
+              'duplicate_traverse': lambda c: ['list'] + [['tuple'] + [[kv[1] for kv in d[1:] if kv[0] == ['str', k]][0] for k in ('name', 'path')] for d in c[1:]] if isinstance(c, list) and c and c[0] == 'list' else c,
               'select_schema_loop': lambda c: ['list'] + [[kv[1] for kv in f[1:] if kv[0] == ['str', 'name']][0] for f in c[1:]] if isinstance(c, list) and c and c[0] == 'list' else c,
               'delete_schema_loop': lambda c: ['list'] + [[kv[1] for kv in f[1:] if kv[0] == ['str', 'name']][0] for f in c[1:]] if isinstance(c, list) and c and c[0] == 'list' else c,
               'ejson_default': lambda c: [c[0], [c[1][0], ['list'] + sorted(c[1][1][1:], key=repr)]] if isinstance(c, list) and c and c[0] == 'dict' and len(c) > 1 and c[1][0] == ['str', 'type{set}'] else c}
@@ -477,6 +478,31 @@ def run_get_type(ctx, b, n):
         srcs = rng.sample(['a', 'b', 'c', 'd', 'e', 'zz'], rng.randint(0, 3))
         op = rng.choice(sorted(AC.AGGREGATORS))
         b.add('computed_get_type', [fields, srcs, op], real_call(AC.get_type, fields, srcs, op), case=[fields, srcs, op])
+    b.flush()
+
+
+def run_duplicate(ctx, b, n):
+    """duplicate's descriptor generator: the real step's resulting resource list against the translated generator"""
+    from dataflows import Flow
+    import dataflows as DF
+    from . import canon
+    from .common import quiet
+    rng = ctx.rng('pycorr-duplicate')
+    for _ in range(n):
+        names = rng.sample(['a', 'b', 'c', 'a_copy'], rng.randint(1, 4))
+        src = rng.choice(names + ['zz'])
+        tn, tp = rng.choice(['copy', 'x']), rng.choice(['copy.csv', 'data/x.csv'])
+        to_end = rng.random() < 0.5
+        desc = canon.make_descriptor([{'name': nm, 'fields': [('v', 'string')]} for nm in names])
+        try:
+            with quiet():
+                dp = Flow(canon.pkg_source(desc, [[] for _ in names]),
+                          DF.duplicate(source=src, target_name=tn, target_path=tp, duplicate_to_end=to_end)).datastream().dp
+            real = {'ok': ['list'] + [['tuple', ['str', r['name']], ['str', r['path']]] for r in dp.descriptor['resources']]}
+        except Exception:  # noqa
+            continue        # duplicating a resource that is not there: not this generator's business
+        ress = [{'name': r['name'], 'path': r['path'], 'other': {'schema': 1}} for r in desc['resources']]
+        b.add('duplicate_traverse', [ress, src, tn, tp, to_end], real, post=lambda v: v, case=[names, src, to_end])
     b.flush()
 
 
@@ -1111,7 +1137,7 @@ def run_flow(ctx, b, n):
     b.flush()
 
 
-RUNNERS = {'get_type': run_get_type, 'select_schema': run_select_schema, 'delete_schema': run_delete_schema, 'concat': run_concat, 'ejson_hook': run_ejson_hook, 'sortkey': run_sortkey, 'ejson': run_ejson, 'driver': run_driver, 'fields': run_fields, 'flow': run_flow, 'load': run_load, 'vloop': run_vloop, 'join': run_join, 'matcher': run_matcher, 'handlers': run_handlers, 'rows': run_rows}
+RUNNERS = {'duplicate': run_duplicate, 'get_type': run_get_type, 'select_schema': run_select_schema, 'delete_schema': run_delete_schema, 'concat': run_concat, 'ejson_hook': run_ejson_hook, 'sortkey': run_sortkey, 'ejson': run_ejson, 'driver': run_driver, 'fields': run_fields, 'flow': run_flow, 'load': run_load, 'vloop': run_vloop, 'join': run_join, 'matcher': run_matcher, 'handlers': run_handlers, 'rows': run_rows}
 
 
 def run(ctx, groups=None, n=None):
